@@ -159,9 +159,9 @@ def helper_level(rep, rng, quick):
             t = run.add(f"qclose {C.qlit(1e-9 * max(1.0, abs(v)) * max(1.0, np.max(np.abs(x))))} "
                         f"(trapz3 opsQ {C.qlist(x)} {C.qlist(x2)} {C.qlist(x3)} {yl}) {C.qlit(v)}")
             todo.append((t, "integrate-3d", kind, {"shape": Y.shape, "impl": v}))
-    # the TRANSLATED source of _integration_weights (Gen/Helpers.v, regenerated on this run) executed in Q on the same grids:
+    # the TRANSLATED source of _integration_weights (Gen/TrapzWeights.v, regenerated on this run) executed in Q on the same grids:
     # validates the translator; in its own run, because the generated file does not load when the translator rejects the source
-    rung = C.CoqRun("C08", IMPORTS.replace("Tie.C08.", "Gen.Helpers Tie.C08."), shard=1)
+    rung = C.CoqRun("C08", IMPORTS.replace("Tie.C08.", "Gen.TrapzWeights Tie.C08."), shard=1)
     gtodo = []
     for t, what, kind, info in todo:
         if what == "weights" and len(gtodo) < 24:
@@ -171,7 +171,7 @@ def helper_level(rep, rng, quick):
     try:
         resg = rung.run()
     except RuntimeError as e:
-        rep.notes.append(("translated _integration_weights could not be evaluated (Gen/Helpers.v does not load): " + str(e))[:300])
+        rep.notes.append(("translated _integration_weights could not be evaluated (Gen/TrapzWeights.v does not load): " + str(e))[:300])
         resg, gtodo = {}, []
     for gt, kind, x_, w_ in gtodo:
         rep.case(("translated-weights", kind, x_.tobytes()), nontrivial=len(x_) >= 3, kind="translated-weights",
